@@ -1,27 +1,45 @@
 (* escape_check.ml — property C17 on the REAL unit text.
 
-   Input (written by `tm-harness escape`): one case per line
+   Input (written by `tm-harness escape`, or by tools/engines/cli.py from the
+   unit files the real binary installed): one case per line
      CASE <id> <tag> <pats> <text>
    <pats>: patterns separated by '|', each the '.'-separated hexadecimal scalar
            values of the pattern; '-' for the empty list
    <text>: hexadecimal bytes of what crate::udev_utils::verif_build_service_text
-           returned for these patterns, or PANIC
+           returned for these patterns (or of the installed file), or PANIC
 
    For every case
-     (a) the model's text  utf8 (Escape.build_service_text pats)  is compared
-         with the real bytes                           -> DIFF ... class=TEXT
-     (b) the REAL text is read back with the extracted EscapeSpec.c17_check
-         (Systemd.unit_exec_start + Systemd.decode, no use of the escaper
-         model), under an environment with no variable set and under one where
-         every variable is set to "X Y", for the instance dev/input/event3
+     (a) class TEXT, the extracted EscapeSpec.text_class_ok on the REAL text:
+         systemd finds exactly one ExecStart= assignment in [Service]
+         (Systemd.service_exec_starts); its value ends, byte for byte, with what
+         the model writes from the exclude region on (Escape.build_exclude_text,
+         then " --dev-file /%I"); the part in front of that, read alone by
+         systemd's rules, is an intact prefix (complete words, a program,
+         --layout-file <path>, --only-if-keyboard, no --exclude) under both
+         environments.  Otherwise                      -> DIFF ... class=TEXT
+         (followed by an EXECSTART line that shows the two sides).  Theorems
+         C17_text_class_on_model / C17_text_class_implies_check / C17_any_prefix
+         are about exactly this comparison.  The other lines of the unit and
+         the words of the front part are NOT compared; how many accepted real
+         texts differ from the model's full text outside the ExecStart= line,
+         and how many in the front part of that line, is counted (SUMMARY
+         outside= prefixdiff=).
+     (b) the REAL text is judged by the extracted EscapeSpec.c17_check
+         (Systemd.service_exec_starts + Systemd.decode + the shape of the
+         argument vector, no use of the escaper model), under an environment
+         with no variable set and under one where every variable is set to
+         "X Y", for the instance dev/input/event3
                                                        -> MONITOR ... clause=C17.roundtrip
-   Theorem C17_check_on_model says (b) can never fire on the model's text, so a
-   MONITOR line is a failure of the real code (or of the correspondence, which
-   (a) reports separately).
+   Theorem C17_check_on_model says (b) can never fire on the model's text, and
+   C17_check_sound / C17_check_complete say (b) fires exactly when the text
+   does not have the property; so a MONITOR line is a failure of the real code.
 
    Second mode:  escape_check --decode-lines FILE   (decoder validation)
      each line: hexadecimal bytes of an ExecStart= value; answer per line
-     ACCEPT <argv> | REJECT, decided by Systemd.decode with no variable set. *)
+     ACCEPT <argv> | REJECT, decided by Systemd.decode with no variable set.
+   Third mode:   escape_check --exec-starts FILE    (unit reader validation)
+     each line: hexadecimal bytes of a unit file; answer per line
+     UNLOADABLE | EXECSTARTS <n> <hex value, '-' for an empty one>... *)
 
 open Model
 
@@ -104,7 +122,7 @@ let max_report = 40
 let run_cases (file : string) : unit =
   let ic = open_in file in
   let cases = ref 0 and patterns = ref 0 and scalars = ref 0 and diffs = ref 0 and hits = ref 0 in
-  let skipped = ref 0 and nontrivial = ref 0 and validated = ref 0 and samples = ref 0 in
+  let skipped = ref 0 and nontrivial = ref 0 and validated = ref 0 and samples = ref 0 and outside = ref 0 and prefixdiff = ref 0 in
   (try
      while true do
        let line = input_line ic in
@@ -121,34 +139,63 @@ let run_cases (file : string) : unit =
                 || List.exists (fun p -> List.exists (fun c -> c < 48 || (c > 57 && c < 65) || (c > 90 && c < 97) || c > 122) p) pats
              then incr nontrivial;
              let model_text = of_n (x_utf8 (x_build_service_text npats)) in
+             let model_exec = of_n (x_utf8 (x_exec_line npats)) in
              let panic = text_s = "PANIC" in
              let real_text = if panic then [] else bytes_of_hex text_s in
-             if panic || real_text <> model_text then begin
+             let nreal = to_n real_text in
+             let real_execs = if panic then None else (match x_service_exec_starts nreal with None -> None | Some l -> Some (List.map of_n l)) in
+             let text_ok = (not panic) && x_text_class_ok instance env_none npats nreal && x_text_class_ok instance env_poison npats nreal in
+             if not text_ok then begin
                incr diffs;
-               if !diffs <= max_report then
+               if !diffs <= max_report then begin
                  Printf.printf "DIFF id=%s tag=%s class=TEXT pats=%s impl=%s model=%s\n" id tag pats_s
                    (if panic then "PANIC" else hex_of_bytes real_text)
-                   (hex_of_bytes model_text)
+                   (hex_of_bytes model_text);
+                 Printf.printf "EXECSTART id=%s impl=%s model=%s\n" id
+                   (if panic then "PANIC"
+                    else match real_execs with
+                      | None -> "UNLOADABLE"
+                      | Some [] -> "NONE"
+                      | Some l -> String.concat "," (List.map (fun v -> if v = [] then "-" else hex_of_bytes v) l))
+                   (hex_of_bytes model_exec)
+               end
              end
-             else incr validated;
+             else begin
+               incr validated;
+               if real_execs <> Some [ model_exec ] then incr prefixdiff
+               else if real_text <> model_text then incr outside
+             end;
              let hyp = List.for_all (fun p -> p <> [] && List.for_all (fun c -> x_scalar_okb (n_of_int c)) p) pats in
              if not hyp then incr skipped
              else begin
-               let nreal = to_n real_text in
                let check name env =
                  if panic || not (x_c17_check instance env npats nreal) then begin
                    incr hits;
                    if !hits <= max_report then begin
-                     let expected = List.map of_n (x_expected_argv instance npats) in
+                     let suffix = List.map of_n (x_required_suffix instance npats) in
                      let observed =
                        if panic then "PANIC"
                        else
-                         match x_read_back instance env nreal with
-                         | None -> "REJECTED(systemd would not run exactly one command from this unit text)"
-                         | Some argv ->
-                             let a = List.map of_n argv in
-                             Printf.sprintf "argc=%d(want=%d);%s" (List.length a) (List.length expected)
-                               (String.map (fun c -> if c = ' ' then '_' else c) (first_diff a expected))
+                         match real_execs with
+                         | None -> "UNLOADABLE(systemd would not load this unit text)"
+                         | Some [] -> "NO-EXECSTART(systemd finds no ExecStart= assignment in [Service])"
+                         | Some (_ :: _ :: _ as l) -> Printf.sprintf "%d-EXECSTART-ASSIGNMENTS(systemd finds more than one ExecStart= assignment in [Service])" (List.length l)
+                         | Some [ _ ] -> (
+                             match x_read_unit instance env nreal with
+                             | None -> "REJECTED(systemd would not run exactly one command from this ExecStart= line)"
+                             | Some argv ->
+                                 let a = List.map of_n argv in
+                                 let la = List.length a and ls = List.length suffix in
+                                 let rec drop n l = if n <= 0 then l else match l with [] -> [] | _ :: t -> drop (n - 1) t in
+                                 let rec take n l = if n <= 0 then [] else match l with [] -> [] | x :: t -> x :: take (n - 1) t in
+                                 let n = if la > ls then la - ls else 0 in
+                                 let tail = drop n a in
+                                 if tail <> suffix then
+                                   Printf.sprintf "argc=%d;argv-does-not-end-with-the-%d-required-arguments;counted-from-arg[%d]:%s" la ls n
+                                     (String.map (fun c -> if c = ' ' then '_' else c) (first_diff tail suffix))
+                                 else
+                                   Printf.sprintf "argc=%d;exclude-arguments-as-required;arguments-in-front-of-them-not-intact:%s" la
+                                     (String.concat "," (List.map (fun w -> "[" ^ show_bytes w ^ "]") (take n a))))
                      in
                      Printf.printf "MONITOR id=%s tag=%s clause=C17.roundtrip pats=%s env=%s observed=%s text=%s\n" id tag
                        pats_s name observed
@@ -174,8 +221,8 @@ let run_cases (file : string) : unit =
      done
    with End_of_file -> ());
   close_in ic;
-  Printf.printf "SUMMARY cases=%d patterns=%d scalars=%d diffs=%d hits=%d skipped=%d nontrivial=%d validated=%d\n" !cases
-    !patterns !scalars !diffs !hits !skipped !nontrivial !validated
+  Printf.printf "SUMMARY cases=%d patterns=%d scalars=%d diffs=%d hits=%d skipped=%d nontrivial=%d validated=%d outside=%d prefixdiff=%d\n" !cases
+    !patterns !scalars !diffs !hits !skipped !nontrivial !validated !outside !prefixdiff
 
 let run_decode_lines (file : string) : unit =
   let ic = open_in file in
@@ -183,7 +230,7 @@ let run_decode_lines (file : string) : unit =
      while true do
        let line = String.trim (input_line ic) in
        if line <> "" then begin
-         let bytes = to_n (bytes_of_hex line) in
+         let bytes = to_n (bytes_of_hex (if line = "-" then "" else line)) in
          match x_decode instance env_none bytes with
          | None -> print_endline "REJECT"
          | Some argv -> Printf.printf "ACCEPT %s\n" (String.concat " " (List.map (fun a -> "[" ^ show_bytes (of_n a) ^ "]") argv))
@@ -192,10 +239,26 @@ let run_decode_lines (file : string) : unit =
    with End_of_file -> ());
   close_in ic
 
+let run_exec_starts (file : string) : unit =
+  let ic = open_in file in
+  (try
+     while true do
+       let line = String.trim (input_line ic) in
+       if line <> "" then begin
+         let bytes = to_n (bytes_of_hex (if line = "-" then "" else line)) in
+         match x_service_exec_starts bytes with
+         | None -> print_endline "UNLOADABLE"
+         | Some l -> Printf.printf "EXECSTARTS %d%s\n" (List.length l) (String.concat "" (List.map (fun v -> " " ^ (if v = [] then "-" else hex_of_bytes (of_n v))) l))
+       end
+     done
+   with End_of_file -> ());
+  close_in ic
+
 let () =
   match Array.to_list Sys.argv with
   | [ _; "--decode-lines"; f ] -> run_decode_lines f
+  | [ _; "--exec-starts"; f ] -> run_exec_starts f
   | [ _; f ] -> run_cases f
   | _ ->
-      prerr_endline "usage: escape_check CASEFILE | escape_check --decode-lines FILE";
+      prerr_endline "usage: escape_check CASEFILE | escape_check --decode-lines FILE | escape_check --exec-starts FILE";
       exit 2
